@@ -82,6 +82,7 @@ class Monitor:
             self.frozen[(mod, name)] = freeze(obj)
         self.before = None
         self.cells = set()
+        self.held = {}       # cid -> (id of the held Config, flattened config the model predicts for it)
 
     # -- the reference model ---------------------------------------------------------------
     def P(self, name):
@@ -166,7 +167,31 @@ class Monitor:
                 self.run.violate('C20', 'no-mutation', 'caller-dict-modified:user', i, {'op': op, 'keys-that-differ': [repr(k) for k in keys]})
 
     # -- hooks called by the runner -------------------------------------------------------------
+    def flat_config(self, user, glob):
+        t, s, merged, winner = self.model(user, glob)
+        flat = {}
+        for k, v in user.items():
+            if k not in SECTIONS and k != 'cache':
+                flat[k] = copy.deepcopy(v)
+        flat['type'] = t
+        flat['syntax'] = s
+        for key in SECTIONS:
+            flat[key] = merged[key]
+        return t, s, flat
+
+    def note_held(self):
+        "A held Config is resolved when it is built: remember what the model predicts at that moment"
+        host = self.run.host
+        for cid, h in host.cfgs.items():
+            if h.instance is None:
+                continue
+            known = self.held.get(cid)
+            if known is None or known[0] is not h.instance:
+                t, s, flat = self.flat_config(h.user, host.global_of(h.spec))
+                self.held[cid] = (h.instance, flat, t, s)
+
     def after_op(self, i, op):
+        self.note_held()
         if op['op'] == 'resolve':
             self.resolve(i, op)
         self.check_tables(i, op)
@@ -218,22 +243,29 @@ class Monitor:
         if self.before is not None:
             self.check_caller(i, op, h, self.before, allow_text=True)
             self.before = None
-        if not op.get('c20') or h.spec.get('holder') not in ('dict', 'none'):
+        if not op.get('c20'):
             return
         if fault is not None or outcome[0].startswith('fault'):
             return
         glob = host.global_of(h.spec)
         user = h.user if h.user is not None else {}
-        t, s, merged, winner = self.model(user, glob)
-        self.note_cells(user, glob, t, s)
-        flat = {}
-        for k, v in user.items():
-            if k not in SECTIONS and k != 'cache':
-                flat[k] = copy.deepcopy(v)
-        flat['type'] = t
-        flat['syntax'] = s
-        for key in SECTIONS:
-            flat[key] = merged[key]
+        if h.spec.get('holder') == 'Config':
+            # a held Config keeps the layers as they were when it was built
+            known = self.held.get(op['cfg'])
+            if known is None or known[0] is not h.instance:
+                return
+            _inst, flat, t, s = known
+            flat = dict(flat)
+            for k in ('text', 'maxRepeat', 'max_repeat'):
+                # (these are read from the dict behind the Config at call time)
+                if k in user:
+                    flat[k] = copy.deepcopy(user[k])
+                else:
+                    flat.pop(k, None)
+            run.count('c20:held-Config-compared-with-flattened-config')
+        else:
+            t, s, flat = self.flat_config(user, glob)
+            self.note_cells(user, glob, t, s)
         random.seed(op.get('pin', 0))
         try:
             res = host.emmet.expand(op['abbr'], flat)
